@@ -43,3 +43,12 @@ chk("C18", "exploration", "property-based testing (Hypothesis): generated block 
     "Search, not proof.",
     "One block per case; hits while the owning mode is stopped are outside the domain.",
     "DESIGN.md §4 C18")
+chk("C20", "exploration", "property-based testing (Hypothesis): generated pricing configurations and coin/game histories vs. an exact-arithmetic reference plus model-free invariants",
+    "Generated pricing tables (coin values, price, higher tiers, max_credits, expiry times) and histories of coins, "
+    "service credits, credit events, start presses, drains, game ends, expiries, free-play toggles and slam tilts run on "
+    "the real credits mode with a faked game; after every operation the balance must equal a Fraction-based reference "
+    "(greedy tier bonuses per pricing session, cap, expiry), stay within [0, max], a start/add must be accepted iff a "
+    "full price is available and deduct exactly it, credits_value must render the balance and the earnings audits must "
+    "equal the coins accepted. Search, not proof.",
+    "Configs representable in whole credit units only; expiry instants never coincide with operations; presses >= 100 ms apart.",
+    "DESIGN.md §4 C20, appendix A.4")
